@@ -70,6 +70,10 @@ impl Case {
         if self.generic_shadow && !self.generic_first {
             lib.push_str(&page);
         }
+        if self.crate_b == "codable" {
+            // Swift's folder mode also writes a shared `Codable.swift` when `()` is used: the crate's own file has that name
+            lib.push_str("\n#[typeshare]\n#[derive(Serialize, Deserialize)]\npub struct UsesUnit {\n    pub nothing: (),\n}\n");
+        }
         lib.push_str(&format!("\n#[typeshare]\n#[derive(Serialize, Deserialize)]\npub struct App {{\n    pub name: String,\n    pub settings: {lib_ty},\n}}\n"));
         files.push((format!("{}/src/lib.rs", self.crate_b), lib));
         files.push((format!("{}/src/settings.rs", self.crate_b), format!("{hdr}\n#[typeshare]\n#[derive(Serialize, Deserialize)]\npub struct {x} {{\n    pub only_in_b: u32,\n}}\n")));
@@ -97,7 +101,7 @@ impl SubCheck for C14Scope {
         "c14-scoping"
     }
     fn strategy(&self, _tier: Tier) -> BoxedStrategy<Case> {
-        let dirs = prop_oneof![Just(("crate_a", "crate_b")), Just(("zeta-types", "app")), Just(("api", "core-types")), Just(("shared_models", "x-y-z"))];
+        let dirs = prop_oneof![Just(("crate_a", "crate_b")), Just(("zeta-types", "app")), Just(("api", "core-types")), Just(("shared_models", "x-y-z")), Just(("shared_models", "codable"))];
         (ws::lang_strategy(), dirs, proptest::sample::subsequence(NAMES.to_vec(), 2..=2).prop_shuffle(), 0u8..5, 0u8..4, any::<bool>(), any::<bool>(), any::<bool>())
             .prop_map(|(lang, (a, b), names, lib_form, net_form, child_ref, generic_shadow, generic_first)| Case {
                 lang,
@@ -167,7 +171,7 @@ impl SubCheck for C14Scope {
             }
         }
         let (Some(fa), Some(fb)) = (fa, fb) else {
-            out.push(Violation::new(format!("scoping/{}/missing-file", lang.short()), format!("{}: expected one output file for `{a}` and one for `{b}`, found {:?}", lang.name(), produced.iter().map(|x| &x.0).collect::<Vec<_>>())));
+            out.push(Violation::new(if lang == Lang::Swift && c.crate_b == "codable" { "scoping/swift/partition/crate-file-is-Codable.swift".to_string() } else { format!("scoping/{}/missing-file", lang.short()) }, format!("{}: expected one output file for `{a}` and one for `{b}`, found {:?}", lang.name(), produced.iter().map(|x| &x.0).collect::<Vec<_>>())));
             let _ = std::fs::remove_dir_all(&root);
             return out;
         };
@@ -177,7 +181,7 @@ impl SubCheck for C14Scope {
         for (file, which, decl, field) in [(&fa, &a, c.clash.as_str(), "only_in_a"), (&fb, &b, c.clash.as_str(), "only_in_b"), (&fa, &a, "Leaf", "leaf_of_a"), (&fb, &b, "Leaf", "leaf_of_b")] {
             if count(file, decl) != 1 || !has_field(file, decl, field) {
                 out.push(Violation::new(
-                    format!("scoping/{}/partition/same-name-in-two-crates", lang.short()),
+                    if lang == Lang::Swift && c.crate_b == "codable" { "scoping/swift/partition/crate-file-is-Codable.swift".to_string() } else { format!("scoping/{}/partition/same-name-in-two-crates", lang.short()) },
                     format!("{}: `{which}` must define its own `{decl}` (field `{field}`) exactly once; found {} definition(s) named `{decl}` there ({form})", lang.name(), count(file, decl)),
                 ));
             }
